@@ -259,7 +259,10 @@ func runHistory(s kvs.Storage, cfg config, base time.Time) ([]hist.Rec, map[stri
 					}
 					c.recs = append(c.recs, hist.Rec{Client: c.id, In: hist.In{Kind: hist.KDelete, Key: key}, Out: out, Call: call, Ret: ret})
 				case op < 91: // GetMany: one read per key, same interval
-					keys := []string{key, keyName(c.rng.Intn(cfg.Keys))}
+					keys := []string{key}
+					for extra := c.rng.Intn(3); extra > 0; extra-- { // one to three keys, repeats possible
+						keys = append(keys, keyName(c.rng.Intn(cfg.Keys)))
+					}
 					call := now()
 					rs, err := s.GetMany(ctx, keys...)
 					ret := now()
@@ -286,7 +289,10 @@ func runHistory(s kvs.Storage, cfg config, base time.Time) ([]hist.Rec, map[stri
 								out.Err = hist.ENotExist
 							}
 						} else {
-							out.Msg = err.Error()
+							// GetMany has no documented failure for absent keys (they give nil entries): any error is
+							// outside the documented set, ErrNotExist included
+							out.Err = hist.EOther
+							out.Msg = fmt.Sprintf("GetMany(%d keys) returned the error %v", len(keys), err)
 						}
 						c.recs = append(c.recs, hist.Rec{Client: c.id, In: hist.In{Kind: hist.KGet, Key: k}, Out: out, Call: call, Ret: ret})
 					}
